@@ -31,7 +31,12 @@ func H_cancel() {
 		b.Links = []hlib.Link{{Path: "l1", Dest: "f0"}, {Path: "l2", Dest: "f1"}}
 	}
 	for i := 0; i < nf; i++ {
-		data := make([]byte, B+1)
+		size := B + 1
+		if rt.HasParam("big") {
+			// long enough for a contiguous damaged run to reach the (scaled) MaxWoundSize in the aggregator
+			size = 3*B + 1
+		}
+		data := make([]byte, size)
 		for j := range data {
 			data[j] = byte(i*16 + j + 1)
 		}
@@ -46,6 +51,11 @@ func H_cancel() {
 		if damage&(1<<i) != 0 {
 			d := append([]byte{}, b.Files[i].Data...)
 			d[len(d)-1] ^= 0xff
+			if rt.HasParam("big") {
+				for j := range d {
+					d[j] = b.Files[i].Data[j] ^ 0xff
+				}
+			}
 			hlib.Must(os.WriteFile(dir+"/"+b.Files[i].Path, d, 0o644), "damage")
 		}
 	}
